@@ -106,19 +106,19 @@ LitExps == <<-45, -39, -38, -20, -7, -1, 0, 1, 5, 22, 23, 38, 39, 45>>
 LitBases == <<10, 3, 16>>
 RatioNums == <<1250001, 1249999, 1250000, 1150000, 1350000, 999500, 999499, 999501, 1005000>>
 
-Kinds == <<"intf", "intsp", "intprim", "primsrc", "pfloat", "ratf", "fbigf", "litf", "litrnd", "tofloat", "toint", "encode">>
+Kinds == <<"intf", "intstk", "intsp", "intprim", "primsrc", "pfloat", "ratf", "fbigf", "litf", "litrnd", "tofloat", "toint", "encode">>
 \* ranges of the four generic parameters per kind
-RA(k) == CASE k = "intf" -> 1..2 [] k = "intsp" -> 1..Len(Specials) [] k = "intprim" -> 1..Len(Widths)
+RA(k) == CASE k = "intf" -> 1..2 [] k = "intstk" -> 1..2 [] k = "intsp" -> 1..Len(Specials) [] k = "intprim" -> 1..Len(Widths)
            [] k = "primsrc" -> 0..12 [] k = "pfloat" -> 1..2 [] k = "ratf" -> 1..2 [] k = "fbigf" -> 1..2
            [] k = "litf" -> 1..Len(Literals) [] k = "litrnd" -> 1..3 [] k = "tofloat" -> 1..4 [] k = "toint" -> 1..3
            [] k = "encode" -> 1..2
-RB(k) == CASE k = "intf" -> 1..3 [] k = "intsp" -> 0..1 [] k = "intprim" -> 0..2 [] k = "primsrc" -> 1..7
+RB(k) == CASE k = "intf" -> 1..3 [] k = "intstk" -> 1..3 [] k = "intsp" -> 0..1 [] k = "intprim" -> 0..2 [] k = "primsrc" -> 1..7
            [] k = "pfloat" -> 0..1 [] k = "ratf" -> 1..3 [] k = "fbigf" -> 1..3 [] k = "litf" -> 0..1
            [] k = "litrnd" -> 1..Len(LitExps) [] k = "tofloat" -> 1..120 [] k = "toint" -> 0..50 [] k = "encode" -> 1..3
-RC(k) == CASE k = "intf" -> 0..7 [] k = "intprim" -> 0..1 [] k = "primsrc" -> 1..6 [] k = "pfloat" -> 1..17
+RC(k) == CASE k = "intf" -> 0..7 [] k = "intstk" -> 0..1 [] k = "intprim" -> 0..1 [] k = "primsrc" -> 1..6 [] k = "pfloat" -> 1..17
            [] k = "ratf" -> 0..7 [] k = "fbigf" -> 0..7 [] k = "litrnd" -> 1..4 [] k = "tofloat" -> 1..3
            [] k = "toint" -> 1..4 [] k = "encode" -> 0..7 [] OTHER -> {0}
-RD(k) == CASE k = "intf" -> 0..(3 * Len(Shifts) - 1) [] k = "intprim" -> 1..12 [] k = "primsrc" -> 0..1 [] k = "pfloat" -> 1..5
+RD(k) == CASE k = "intf" -> 0..(3 * Len(Shifts) - 1) [] k = "intstk" -> 0..63 [] k = "intprim" -> 1..12 [] k = "primsrc" -> 0..1 [] k = "pfloat" -> 1..5
            [] k = "ratf" -> 0..(2 * 7 * NExps - 1) [] k = "fbigf" -> 0..(2 * NExps - 1) [] k = "tofloat" -> 0..11
            [] k = "toint" -> 1..6 [] k = "encode" -> 0..(2 * 8 * NExps - 1) [] OTHER -> {0}
 Big(k) == k \in {"intf", "ratf", "fbigf", "tofloat", "encode", "intprim", "toint"}
@@ -147,6 +147,16 @@ Cases ==
              x == IF j = 0 \/ dl = 0 THEN base ELSE IF dl = 1 THEN Add(base, One) ELSE Sub(base, One)
          IN <<ToF(TvBig(0, x), a, "HalfEven"), ToF(TvInt("I", 1, x), a, "HalfEven"),
               Conv(TvBig(0, x), Fts[a], 2), Conv(TvInt("I", 1, x), Fts[a], 2)>>
+    \* an exact tie (even neighbour below / above) plus ONE sticky bit, at every position just below the half bit and at
+    \* the bottom: a sticky-bit mask that is one bit short anywhere along the word boundary shows as a wrong last bit
+    [] kind = "intstk" ->
+         LET M == FtM[a]
+             j == <<40, 64, 75, 100>>[1 + (d \div 16)]
+             t == IF d % 16 < 13 THEN j - 1 - (d % 16) ELSE <<0, 1, j \div 2>>[(d % 16) - 12]
+             tie == Shl(Pat(M, b, IF c = 0 THEN 4 ELSE 12), j)          \* ...0|100 and ...1|100 : ties
+             x == Add(tie, P2(t))
+         IN <<ToF(TvBig(0, x), a, "HalfEven"), ToF(TvInt("I", 1, x), a, "HalfEven"),
+              ToF(TvBig(0, tie), a, "HalfEven"), ToF(TvInt("I", 1, tie), a, "HalfEven")>>
     [] kind = "intsp" ->
          LET x == Specials[a] s == b IN
          <<ToF(TvInt(IF s = 0 THEN "U" ELSE "I", s, x), 1, "HalfEven"), ToF(TvInt(IF s = 0 THEN "U" ELSE "I", s, x), 2, "HalfEven"),
